@@ -2479,6 +2479,13 @@ func (r *Resolver) findDS(ctx context.Context, signer, qname string, parentDS []
 // determine whether an insecure delegation exists between the ancestor and
 // the zone.
 func (r *Resolver) isZoneSecure(ctx context.Context, qname string, parentDS []dns.RR, zone string) bool {
+	if zone == rootzone && len(parentDS) == 0 && r.dnssec && r.hasTrustAnchors() {
+		// The root has no parent and so no DS: its configured trust anchor
+		// is what makes it a signed zone. Without this, a root-server
+		// response stripped of its RRSIGs looked like data from an unsigned
+		// zone and was accepted unvalidated.
+		return true
+	}
 	if !hasSupportedDS(parentDS) {
 		// Either no DS records, or every DS uses a digest type this
 		// validator cannot verify. RFC 6840 §5.2 treats such zones as
